@@ -428,6 +428,12 @@ def c06(ctx, res):
             files.append(origin.to_bytes(2, "big") + b"\xF0\x25" * n)
             files.append(origin.to_bytes(2, "big") + b"\xF0\x25" * n + b"\x00")  # odd length
 
+    # odd-length files that look like a good image with something stuck on: a line end, blanks, a tab, NUL,
+    # half of a further word
+    good = bytes.fromhex("3000e002f022f02500480069000000")[:14] + b"\x00\x00"
+    for tail in (b"\n", b" ", b"\r\n\n", b"\t", b"   ", b"\x0c", b"\x00", b"\xf0", b"\n\n\n", b" \n ", b"\r"):
+        files.append(good + tail)
+        files.append(b"\x30\x00\xf0\x25" + tail)
     # accepted images that run into the word *behind* the image: it is the implicit HALT, so they end
     # normally (exit 0) whatever their own last word is
     behind = {}
@@ -1203,7 +1209,8 @@ def c08_surroundings(ctx, res, d):
     full = common.full_device(ctx)
     other_fs = "/dev/shm" if os.path.isdir("/dev/shm") and os.stat("/dev/shm").st_dev != os.stat(d).st_dev else None
     kinds = ["stdout_full", "stdout_reader_gone", "streams_closed", "dest_mtime_in_the_future", "tmpdir_missing", "tmpdir_other_fs", "stdout_is_the_destination_dir",
-             "source_in_another_directory", "256_failing_statements", "512_failing_statements", "255_failing_statements"]
+             "source_in_another_directory", "256_failing_statements", "512_failing_statements", "255_failing_statements",
+             "destination_locked_elsewhere", "destination_open_elsewhere"]
     for kind in kinds:
         for pre in (True, False):
             base = os.path.join(d, "sur_%s_%d" % (kind, pre))
@@ -1235,6 +1242,15 @@ def c08_surroundings(ctx, res, d):
                     continue
                 t = time.time() + 3 * 3600
                 os.utime(dest, (t, t))
+            elif kind in ("destination_locked_elsewhere", "destination_open_elsewhere"):
+                # somebody else has the old object open (and, in the first case, holds an advisory lock on it)
+                if not pre:
+                    continue
+                import fcntl
+                held = open(dest, "rb")
+                opened.append(held)
+                if kind == "destination_locked_elsewhere":
+                    fcntl.flock(held, fcntl.LOCK_EX)
             elif kind == "tmpdir_missing":
                 e["TMPDIR"] = os.path.join(base, "no", "such", "dir")
             elif kind == "tmpdir_other_fs":
